@@ -303,7 +303,8 @@ def run(args):
                                'reason': r['reason'], 'line': vc.line, 'trace': list(vc.trace)[-12:]}
                               for vc, r in (e['sat'] + e['unknown'])[:6]],
                    'models': [r['model'] for vc, r in e['sat'][:3]],
-                   'scan': e.get('scan_violations')}
+                   'scan': e.get('scan_violations'),
+                   'ledger_clauses': sorted(c for c in ledger if c.endswith(':' + str(e['fn']).split(':')[-1]))}
         json.dump(payload, open(rfile, 'w'), indent=1, default=str)
         if e['kind'] != 'frame-scan':
             rp = run_replay(rfile)
